@@ -303,13 +303,29 @@ pub fn compare(scratch: &Path, tag: &str, data_dir: &Path, ws: &Path, thread: &s
     let b_dir = scratch.join(format!("{tag}-truth"));
     let _ = std::fs::remove_dir_all(&a_dir);
     let _ = std::fs::remove_dir_all(&b_dir);
-    copy_dir(data_dir, &a_dir);
     copy_dir(data_dir, &b_dir);
     let _ = std::fs::remove_dir_all(b_dir.join("continuity_streams"));
-    let a = answers(&a_dir, ws, thread, q, only);
     let b = answers(&b_dir, ws, thread, q, only);
-    let _ = std::fs::remove_dir_all(&a_dir);
     let _ = std::fs::remove_dir_all(&b_dir);
+    // caches as found: every query on its OWN copy of the directory. Several queries rebuild caches
+    // as a side effect (a replay that falls back to the log rewrites all of them), so asking them one
+    // after the other on one copy would show every later query a healed cache.
+    let mut a = BTreeMap::new();
+    let names: Vec<&str> = match only {
+        Some(n) => vec![n],
+        None => QUERY_NAMES.to_vec(),
+    };
+    for name in names {
+        let _ = std::fs::remove_dir_all(&a_dir);
+        copy_dir(data_dir, &a_dir);
+        let one = answers(&a_dir, ws, thread, q, Some(name));
+        let diverged = one.get(name) == Some(&json!("DIVERGES"));
+        a.extend(one);
+        if diverged {
+            break;
+        }
+    }
+    let _ = std::fs::remove_dir_all(&a_dir);
     (a, b)
 }
 
@@ -485,6 +501,21 @@ fn one_case(rep: &mut Report, model: &mut Model, rng: &mut Rng, case_no: u64, si
             });
         }
         rounds.push((fs, rng.chance(1, 2)));
+    }
+    // one more round per case: several cache files LOST together (a partial clean-up, a restore that
+    // missed files): which files remain decides which read path answers, and each path has its own
+    // idea of when to fall back to the log
+    if !kinds.is_empty() {
+        let want = rng.range(2, 3) as usize;
+        let mut pool: Vec<String> = kinds.clone();
+        let mut fs = Vec::new();
+        // the sidecars first: losing two of the three sidecars is the interesting half
+        pool.sort_by_key(|k| (!(k.ends_with("jsonl") && !k.contains("seek") && !k.contains("idx")), rng.below(1000)));
+        for k in pool.into_iter().take(want) {
+            fs.push(Fault::Delete(k));
+        }
+        rep.count("rounds_losing_several_cache_files");
+        rounds.push((fs, false));
     }
     drop(store);
     let base = scratch.path().join("base");
